@@ -968,3 +968,7 @@ Section Live.
       destruct (reply_progress key self tbl U s' p (ans p) I Hin) as [s'' Hs'']. exists p, s''. split; [now left | exact Hs''].
   Qed.
 End Live.
+
+(* ------------------------------------------------------------------ what lookup.query tells the table *)
+Lemma track_success_iff r : track_success r = true <-> r <> [].
+Proof. unfold track_success. rewrite Nat.ltb_lt. destruct r; simpl; split; intros H; try lia; easy. Qed.
